@@ -15,6 +15,14 @@ struct _table_arm table_arm[] =
 {
   //{ "lsl", 0x02000000, 0x0e000000, OP_ALU, 3, 2 },
   { "bx",    0x012fff10, 0x0ffffff0, OP_BRANCH_EXCHANGE, 2, -1 },
+  // These must come before the data processing rows, whose masks also match
+  // them (the disassembler takes the first row that matches).
+  { "mul",   0x00000090, 0x0fd000f0, OP_MULTIPLY, 3, -1 },
+  { "mla",   0x00200090, 0x0fd000f0, OP_MULTIPLY, 3, -1 },
+  { "swp",   0x01000090, 0x0fb00ff0, OP_SWAP, 3, -1 },
+  { "mrs",   0x010f0000, 0x0fbf0fff, OP_MRS, 3, -1 },
+  { "msr",   0x0129f000, 0x0fbffff0, OP_MSR_ALL, 3, -1 },
+  { "msr",   0x0329f000, 0x0fbff000, OP_MSR_FLAG, 3, -1 },
   { "and",   0x00000000, 0x0de00000, OP_ALU_3, 3, 2 },
   { "eor",   0x00200000, 0x0de00000, OP_ALU_3, 3, 2 },
   { "sub",   0x00400000, 0x0de00000, OP_ALU_3, 3, 2 },
@@ -31,12 +39,6 @@ struct _table_arm table_arm[] =
   { "mov",   0x01a00000, 0x0de00000, OP_ALU_2_D, 3, 2 },
   { "bic",   0x01c00000, 0x0de00000, OP_ALU_3, 3, 2 },
   { "mvn",   0x01e00000, 0x0de00000, OP_ALU_2_D, 3, 2 },
-  { "mul",   0x00000090, 0x0fd000f0, OP_MULTIPLY, 3, -1 },
-  { "mla",   0x00200090, 0x0fd000f0, OP_MULTIPLY, 3, -1 },
-  { "swp",   0x01000090, 0x0fb00ff0, OP_SWAP, 3, -1 },
-  { "mrs",   0x010f0000, 0x0fbf0fff, OP_MRS, 3, -1 },
-  { "msr",   0x0129f000, 0x0fbffff0, OP_MSR_ALL, 3, -1 },
-  { "msr",   0x0329f000, 0x0fbff000, OP_MSR_FLAG, 3, -1 },
   { "ldr",   0x04100000, 0x0c100000, OP_LDR_STR, 3, -1 },  // LS = 1 load
   { "ldrh",  0x04100000, 0x0c100000, OP_LDR_STR, 3, -1 },  // LS = 1 load
   { "ldrsb", 0x00100090, 0x0e100f90, OP_LDR_STR_HB, 3, -1 },
